@@ -175,11 +175,17 @@ def gen_case(rng, quick, force=None):
         # newline, IDs much longer than the others (they enter operands through padding / concatenation), non-ASCII
         base = core.gen_ids(rng, 3, "x", alphabet)
         var = core.tricky_unknown_ids(base) + [base[0] + "\n", base[1] + "é日本", "x" + "L" * 40]
+        # the same text in two Unicode spellings (NFC / NFD) are DISTINCT IDs; line separators other than \n; '%' and
+        # a leading double quote; a text that is also an ID of the other axis
+        odd = ["x\u00e9", "xe\u0301", "x\u2028y", "x\u0085y", "x%s%d", '"xq', "x\u2029"]
+        var += rng.sample(odd, 3)
         rng.shuffle(var)
         universe = list(dict.fromkeys(base[:2] + var))[:max(3, len(universe))]
         rng.shuffle(universe)
         abase = core.gen_ids(rng, 3, "A" if axis == "sample" else "R", alphabet)
         avar = core.tricky_unknown_ids(abase) + [abase[0] + "\n", abase[1] + "µµµ", abase[0] + "_" * 30]
+        avar += [abase[0] + "\u00e9", abase[0] + "e\u0301", abase[1] + "\u2028", '"' + abase[2], abase[2] + "%"]
+        avar += universe[:2]          # names shared by both axes
         rng.shuffle(avar)
         apool = list(dict.fromkeys(abase + avar + apool))
     classes = rng.choice([("count",), ("smallcount",), ("dyadic",), ("count", "neg"), ("dyadic", "neg", "count"),
@@ -255,6 +261,33 @@ def gen_hardening(rng):
             "post": rng.choice([None] * 5 + ["mutate_result", "mutate_operand", "altcall", "reuse_list", "reuse_list"]),
             "container": "tuple" if rng.random() < 0.05 else "list",
             "post_seed": rng.randrange(1 << 30)}
+
+
+def gen_many(rng, axis, k, entry, overlap=None):
+    """MANY small operands (operand-count thresholds): k tables with 1-2 IDs each on the axis, partly overlapping
+    other-axis IDs, metadata on some; `overlap` = None | "last-first" | "random" repeats an axis ID in two tables"""
+    universe = core.gen_ids(rng, rng.randint(3, 6), "x", "ascii")
+    ops = []
+    for i in range(k):
+        aids = ["%s%d_%d" % ("A" if axis == "sample" else "R", i, j) for j in range(rng.choice([1, 1, 2]))]
+        oids = [x for x in universe if rng.random() < 0.7] or [universe[0]]
+        if i == k - 1 and rng.random() < 0.5:
+            oids.append("xonly-last")              # an other-axis ID that only the last table has
+        rng.shuffle(oids)
+        grid = core.gen_grid(rng, len(aids), len(oids), 0.7, ("count",))
+        spec = make_spec(axis, aids, oids, grid, gen_md_mixed(rng, aids, "t%d" % i) if rng.random() < 0.5 else None,
+                         None, rng.choice(core.TYPES) if i == 0 else None)
+        ops.append({"spec": spec, "route": rng.choice(["dense", "csr", "csc"]), "hist": "none"})
+    if overlap and k >= 2:
+        key = "obs" if axis == "observation" else "samp"
+        i, j = (0, k - 1) if overlap == "last-first" else sorted(rng.sample(range(k), 2))
+        ops[j]["spec"][key] = list(ops[j]["spec"][key])
+        ops[j]["spec"][key][-1] = ops[i]["spec"][key][0]
+    rec = {"axis": axis, "ops": ops, "mode": "list", "entry": entry, "exact": True}
+    rec.update(gen_hardening(rng))
+    rec["post"] = "reuse_list" if (k <= 40 and rng.random() < 0.15) else None
+    rec["container"] = "list"
+    return rec
 
 
 def gen_wide(rng, axis, wide_on, n_wide=None, padded=None, entry=None):
@@ -521,10 +554,15 @@ def evaluate(ctx, tables, recipe, tags, stage, axis=None, profile=None, poke_rng
     ctx.count("entry=%s/%s" % (entry, mode))
     if any(t["omd"] is not None or t["smd"] is not None for t in tobs):
         ctx.count("with-metadata")
+    okey = "samp" if axis == "observation" else "obs"
     widest = max(max(len(t["obs"]), len(t["samp"])) for t in tobs)
-    for thr in (64, 128, 256):
+    widest = max(widest, len(set(x for t in tobs for x in t[okey])), sum(len(t[key]) for t in tobs))
+    for thr in (64, 128, 256, 512):
         if widest > thr:
             ctx.count("wide>%d" % thr)
+    for thr in (8, 32, 64, 128):
+        if k > thr:
+            ctx.count("operands>%d" % thr)
     if not ans.get("model_holds", True):
         ctx.diverge(case, "theorem model_holds contradicted by the driver", tags, detail={"model": ans["model"]})
     if not ans["holds"]:
@@ -616,6 +654,65 @@ def check_case(ctx, recipe, tags=()):
         evaluate(ctx, list(reversed(tables)), recipe, tags, "reversed", poke_rng=prng, look_rng=prng)
         evaluate(ctx, tables, recipe, tags, "again", look_rng=prng)
     return ans
+
+
+# ----------------------------------------------------------------------------- independence of the hash seed
+def plain_outcome(recipe):
+    """the bare call on freshly built operands: full result observation (other-axis order included) or error class"""
+    axis = recipe["axis"]
+    tables = [build_operand(o, axis) for o in recipe["ops"]]
+    for i, t in enumerate(tables):
+        if tuple(t.shape) != (len(t.ids(axis="observation")), len(t.ids())):
+            tables[i] = build_operand(dict(recipe["ops"][i], route="csr", hist="none"), axis)
+    arg = list(tables) if recipe["entry"] == "module" else list(tables[1:])
+    try:
+        return {"ok": slim(core.table_obs(call_concat(tables[0], arg, axis, recipe["entry"])))}
+    except Exception as e:  # noqa
+        return {"error": core.err_name(e)}
+
+
+def by_id(out, axis):
+    """outcome with the other axis brought to sorted ID order (the property does not fix that order)"""
+    if "ok" not in out:
+        return out
+    t = out["ok"]
+    if axis == "sample":
+        perm = sorted(range(len(t["obs"])), key=lambda i: t["obs"][i])
+        return {"ok": dict(t, obs=[t["obs"][i] for i in perm], rows=[t["rows"][i] for i in perm],
+                           omd=None if t["omd"] is None else [t["omd"][i] for i in perm])}
+    perm = sorted(range(len(t["samp"])), key=lambda i: t["samp"][i])
+    return {"ok": dict(t, samp=[t["samp"][i] for i in perm], rows=[[r[i] for i in perm] for r in t["rows"]],
+                       smd=None if t["smd"] is None else [t["smd"][i] for i in perm])}
+
+
+def child_main():
+    import sys
+    recipes = json.loads(sys.stdin.read())
+    sys.stdout.write(json.dumps([plain_outcome(r) for r in recipes], ensure_ascii=True))
+
+
+def hashseed_stream(ctx, recipes, seeds):
+    """`concat` walks Python sets of IDs (str hashes differ from process to process unless PYTHONHASHSEED is pinned):
+    the same operand sets in child processes with other hash seeds must give exactly the parent's outcomes"""
+    import os
+    import subprocess
+    import sys
+    here = [plain_outcome(r) for r in recipes]
+    for hs in seeds:
+        env = dict(os.environ, PYTHONHASHSEED=str(hs), BIOM_REPO=core.REPO)
+        p = subprocess.run([sys.executable, "-c",
+                            "import sys; sys.path.insert(0, %r); from harness import c10; c10.child_main()" % core.ROOT],
+                           input=json.dumps(recipes), capture_output=True, text=True, env=env, cwd=core.ROOT)
+        if p.returncode != 0:
+            raise RuntimeError("hash-seed child failed: " + p.stderr[-500:])
+        there = json.loads(p.stdout)
+        for rec, a, b in zip(recipes, here, there):
+            ctx.count("hashseed-compared")
+            case = {"recipe": rec, "stage": "hashseed=%s" % hs, "child": b, "parent": a}
+            if by_id(a, rec["axis"]) != by_id(b, rec["axis"]):
+                ctx.fail(case, "outcome-independent-of-hash-seed", ["hashseed"])
+            elif a != b:
+                ctx.diverge(case, "other-axis order depends on the hash seed (the model says: sorted)", ["hashseed"])
 
 
 # ----------------------------------------------------------------------------- fixed corpus
@@ -742,8 +839,27 @@ def run(ctx):
                 ("observation", "axis", rng.choice([70, 129, 300]), rep % 2 == 1, None)]
         if rep % 2:
             plan = [(other_of(a), w, n, not p, e) for a, w, n, p, e in plan]
+        plan.append((rng.choice(AXES), "other", rng.randint(513, 600), rep % 2 == 0, rng.choice(["method", "module"])))
         for axis, wide_on, n, padded, entry in plan:
             check_case(ctx, gen_wide(rng, axis, wide_on, n, padded, entry), tags=["wide"])
+    # other hash seeds in child processes (set iteration order of the missing IDs, of fresh other-axis IDs)
+    hs_recipes = [json.loads(json.dumps(r)) for r in fixed_corpus()]
+    for _ in range(25 if quick else 150):
+        hs_recipes.append(gen_case(rng, quick, {"k": rng.choice([3, 4]), "mode": rng.choice(["partial", "disjoint", "mixed"]),
+                                                "overlap": rng.random() < 0.1}))
+    hashseed_stream(ctx, hs_recipes, [rng.randrange(1, 1 << 30)] if quick else [rng.randrange(1, 1 << 30) for _ in range(3)])
+    # operand-count thresholds: k just below / at / just above every power of two up to 128 (thorough: 512), through
+    # both entry points; a quarter of the sets repeat an axis ID (last table vs first, or a random pair) and must raise
+    tops = [8, 16, 32, 64, 128] + ([] if quick else [256, 512])
+    for t in tops:
+        for k in (t - 1, t, t + 1):
+            for entry in ("module", "method"):
+                ov = rng.choice([None, None, None, "last-first", "random"])
+                check_case(ctx, gen_many(rng, rng.choice(AXES), k, entry, ov), tags=["many"])
+    for _ in range(4 if quick else 40):
+        k = rng.choice([rng.randint(5, 40), rng.randint(41, 100), 32 * rng.randint(1, 4) + 1, rng.randint(100, 140)])
+        check_case(ctx, gen_many(rng, rng.choice(AXES), k, rng.choice(["module", "method"]),
+                                 rng.choice([None, None, "last-first"])), tags=["many"])
     # systematic sweep: every (axis, k, mode, entry) combination at least a few times
     reps = 2 if quick else 12
     for axis in AXES:
